@@ -24,6 +24,8 @@ def static_deps(run, P, params):
         if missing:
             X.fail_case(run, 'dependency-not-reported', 'task %d (%s) reads the stored results of tasks %s (%s) but Task.dependencies() does not report them'
                         % (i, inf['name'], missing, [P['info'][d]['name'] for d in missing]), P, params)
+        if inf.get('reported_again', inf['reported']) != inf['reported']:
+            X.fail_case(run, 'dependencies-not-idempotent', 'task %d (%s): Task.dependencies() reports %s the first time and %s when asked again' % (i, inf['name'], inf['reported'], inf['reported_again']), P, params)
         if not inf['can_run']:
             X.fail_case(run, 'can_run-false-with-all-deps', 'task %d (%s): can_run() is False although every earlier task has run' % (i, inf['name']), P, params)
 
